@@ -1060,6 +1060,11 @@ class Data(Container, NetCDFHDF5, Files, core.Data):
                                 stop += 1
                             else:
                                 stop -= 1
+                                if stop < 0:
+                                    # A negative stop would count
+                                    # from the end of the axis, so
+                                    # use None to include element 0
+                                    stop = None
 
                             y.append(slice(start, stop, step))
 
